@@ -197,4 +197,6 @@ def dict_loop(eng, s, it, st, fr, k):
     se = sh0
     for _, f in L._norm(L._inv(eng, spec, se, fr, {"k_": n, "n_": n})):
         se = se.assume(eng.S.b(f))
+    if getattr(spec, "on_exit", None):
+        se = spec.on_exit(eng, se)
     return eng.ex(s.orelse, se, fr, k)
